@@ -105,6 +105,7 @@ struct Stats {
     sut_empty_name_single: u64,
     sut_zero_fields: u64,
     echo_nondefault: u64,
+    lenient_continued: u64,
     digest: u64,
     states: HashSet<u64>,
     types_hit: HashSet<usize>,
@@ -124,6 +125,7 @@ fn add_probe(s: &mut Stats, p: &CaseProbe) {
     s.sut_empty_name_single += p.sut_empty_name_single.min(1) as u64;
     s.sut_zero_fields += p.sut_zero_fields.min(1) as u64;
     s.echo_nondefault += p.echo_nondefault.min(1) as u64;
+    s.lenient_continued += p.lenient_continued.min(1) as u64;
 }
 
 fn account(s: &mut Stats, index: u64, case: &Case, j: &Judged) {
@@ -170,9 +172,10 @@ fn account(s: &mut Stats, index: u64, case: &Case, j: &Judged) {
     s.states.insert(state_key(case, j));
     let mut h = Fnv::default();
     h.u64(index);
-    h.bytes(j.dm.out.as_bytes());
+    // pointer text (`{:p}` fields) is equal on both sides of a run but differs between processes
+    h.bytes(mask_pointers(&j.dm.out).as_bytes());
     h.u64(j.dm.ok as u64);
-    h.bytes(j.rf.out.as_bytes());
+    h.bytes(mask_pointers(&j.rf.out).as_bytes());
     h.u64(j.rf.ok as u64);
     let class = match &j.verdict {
         Verdict::Agree => {
@@ -205,6 +208,36 @@ fn account(s: &mut Stats, index: u64, case: &Case, j: &Judged) {
     s.digest = s.digest.wrapping_add(h.0 | 1);
 }
 
+fn mask_pointers(s: &str) -> String {
+    let b = s.as_bytes();
+    let mut out = String::with_capacity(s.len());
+    let mut i = 0;
+    while i < b.len() {
+        if b[i] == b'0' && i + 1 < b.len() && b[i + 1] == b'x' {
+            let mut j = i + 2;
+            while j < b.len() && b[j].is_ascii_hexdigit() {
+                j += 1;
+            }
+            // a sink fault can cut a pointer short: a hex run that reaches the end of the text is masked too
+            if j - (i + 2) >= 8 || j == b.len() {
+                out.push_str("0xPTR");
+                i = j;
+                continue;
+            }
+        }
+        // s is valid UTF-8; copy one char
+        let ch_len = match b[i] {
+            x if x < 0x80 => 1,
+            x if x >= 0xF0 => 4,
+            x if x >= 0xE0 => 3,
+            _ => 2,
+        };
+        out.push_str(&s[i..i + ch_len]);
+        i += ch_len;
+    }
+    out
+}
+
 fn merge(a: &mut Stats, b: Stats) {
     macro_rules! add { ($($f:ident),*) => { $( a.$f += b.$f; )* } }
     add!(
@@ -212,7 +245,7 @@ fn merge(a: &mut Stats, b: Stats) {
         sink_full_fired, sink_once_fired, sink_fired_in_field, sink_fired_before_first_field,
         sink_fired_between_or_closer, script_fail_fired, both_err, pretty, nondefault_spec, hex_spec, ctx_nested,
         newline_chunk_end_pretty, newline_mid_chunk_pretty, empty_chunk, sut_depth_ge2, sut_nonexh_pretty,
-        sut_nonexh_plain, sut_empty_name_single, sut_zero_fields, echo_nondefault
+        sut_nonexh_plain, sut_empty_name_single, sut_zero_fields, echo_nondefault, lenient_continued
     );
     a.digest = a.digest.wrapping_add(b.digest);
     a.states.extend(b.states);
@@ -337,7 +370,7 @@ fn cmd_run(args: &[String]) -> i32 {
             "empty_chunk": total.empty_chunk, "nested_builder_depth_ge2": total.sut_depth_ge2,
             "non_exhaustive_closer_pretty": total.sut_nonexh_pretty, "non_exhaustive_closer_plain": total.sut_nonexh_plain,
             "empty_name_one_tuple": total.sut_empty_name_single, "zero_field_builder": total.sut_zero_fields,
-            "options_echo_nondefault": total.echo_nondefault,
+            "options_echo_nondefault": total.echo_nondefault, "ill_behaved_party_continued_after_error": total.lenient_continued,
         },
         "distinct_states": total.states.len(),
         "digest": format!("{:016x}", total.digest),
